@@ -238,11 +238,15 @@ def handle (j : Json) : R Json := do
           | some s => (judgeClientWrite dt (.ok cv) s ivnode).map (fun c => "cset:" ++ (c.drop 7).toString)
           | none => ["cset:missing"])
        | _, _ => [])
+    -- hypothesis `Valid cdt v` of `client_cache_string_write`, decided on the value the implementation's cache holds
+    let cvalid : Option Bool := match cdt, icval with
+      | some c, some (.ok cv) => some (validB c cv)
+      | _, _ => none
     let b64ok := match v with
       | .bytes b => Base64.decode? (Base64.encode b) == some b
       | _ => true
     return Json.mkObj [("wf", .bool dt.wfB), ("valid", .bool valid), ("canon", .bool canon), ("complete", .bool complete),
-      ("fmtlaw", .bool fmtlaw), ("model", Json.mkObj [
+      ("fmtlaw", .bool fmtlaw), ("cvalid", match cvalid with | some b => .bool b | none => .null), ("model", Json.mkObj [
         ("exp", outToJson jvalToJson (some mexp)), ("node", outToJson pvalToJson mnode),
         ("client", outToJson pvalToJson mclient), ("cdt", jopt dtypeToJson cdt),
         ("text", outToJson textToJson (some mtext)), ("back", outToJson pvalToJson mback),
